@@ -218,12 +218,26 @@ def _do(iso, call):
         return ("exc", exc)
 
 
+_BUILD = [0]
+
+
 def _build(spec):
+    _BUILD[0] += 1
+    if spec["units"]["pressure_mode"].startswith("relative") and spec["units"].get("pressure_unit") is None and _BUILD[0] % 2:
+        # a relative-pressure record for which no pressure unit is mentioned at all (the constructor's defaults apply)
+        s2 = dict(spec, units={k: v for k, v in spec["units"].items() if k != "pressure_unit"})
+        return gen.build_point(s2, "df")
     return gen.build_point(spec, "df")
 
 
 def _spec_for(r, units, ads, T, mat_props, extras=True, n=None):
     spec = gen.point_spec(r, n=n or r.randint(2, 12), units=units, ads=ads, T=T, extras=extras, meta={"user": "x", "n": 3}, material_props=mat_props)
+    if r.random() < 0.2:
+        # loadings recorded as whole numbers (an integer-typed column): same rank order as before
+        b = spec["branch"]
+        na = b.count(0)
+        spec["loading"] = [1 + 2 * i for i in range(na)] + [2 * na + 3 - 2 * j for j in range(len(b) - na)]
+        spec["integer_loading"] = True
     return spec
 
 
